@@ -130,14 +130,6 @@ def sameRootName (doms : List Node) : Bool :=
 def wfDocs (doms : List Node) : Bool :=
   sameRootName doms && doms.all (fun d => d.wellFormed && d.attrsDistinct)
 
-/-- names over identifier characters and `-`, `.`, `:` whose first alphanumeric character is a letter,
-all inside the supported alphabet (C04's domain) -/
-def nameOK (n : Name) : Bool :=
-  n.all (fun c => inSigma c && (isAlnum c || c = '_' || c = '-' || c = '.' || c = ':')) &&
-  (match n.find? isAlnum with
-   | some c => isLetter c
-   | none => false)
-
 def Elem.namesOK : Elem → Bool
   | .mk n _ _ _ as cs _ => nameOK n && as.all (fun a => nameOK a.2) && goKids cs
 where
